@@ -10,12 +10,11 @@ namespace Atree.WC
 open Atree Atree.Codec Gen World
 
 theorem world_slab_goal {D : SlabID → DigestFn 4} {w : World} {ctr : Nat}
-    (H : WorldOk' D w ctr) (Hh : HeapOk w ctr) (L : LeafOk w ctr)
+    (H0 : CInv D w ctr) (Hh : HeapOk w ctr) (L : LeafOk w ctr)
     (hD : ∀ x p, ∀ h ∈ (D x).dg p, h < 2 ^ 64) :
     ∀ id ws, w.slabAt id = some ws → SlabGoal w id ws := by
   intro id ws hs
-  have E := env_of_worldOk H Hh L hD
-  obtain ⟨rank, H0⟩ := H
+  have E := env_of_worldOk H0 Hh L hD
   have hT := H0.legal
   have hmem : (id, ws) ∈ w.heapOf := E2E.mem_of_find?_some hs
   obtain ⟨x, c, hx, hp⟩ := (mem_heapOf_iff w id ws).1 hmem
@@ -54,5 +53,16 @@ theorem world_slab_goal {D : SlabID → DigestFn 4} {w : World} {ctr : Nat}
     | true => exact mapInl_goal E (hD x) m ctr (hok.2 hi) hnd hval hkey (id, ws) hp
     | false =>
       exact map_slabs_goal E hT (hD x) m (hok.1 hi).1 hnd hidlt hw1 hw2 hw3 hval hkey (id, ws) hp
+
+/-- … from the global invariant, with the 64-bit condition on the digests of the STORED keys only
+    (`LeafOk.digs`): the invariant is carried over to the truncated digest functions -/
+theorem world_slab_goal' {D : SlabID → DigestFn 4} {w : World} {ctr : Nat}
+    (H : WorldOk' D w ctr) (Hh : HeapOk w ctr) (L : LeafOk w ctr) :
+    ∀ id ws, w.slabAt id = some ws → SlabGoal w id ws :=
+  world_slab_goal ((CInv.of_worldOk H).trunc L.digs) Hh L (fun x => truncD_lt (D x))
+
+theorem env_of_worldOk' {D : SlabID → DigestFn 4} {w : World} {ctr : Nat}
+    (H : WorldOk' D w ctr) (Hh : HeapOk w ctr) (L : LeafOk w ctr) : Env w :=
+  env_of_worldOk ((CInv.of_worldOk H).trunc L.digs) Hh L (fun x => truncD_lt (D x))
 
 end Atree.WC
